@@ -226,7 +226,9 @@ func genRelay(t *rapid.T) RelayScript {
 		s.Start = rapid.SampledFrom([]string{"", "", "a", "x/y", "zz", "../x", s.Prefix}).Draw(t, "start")
 	}
 	for n := rapid.IntRange(0, 3).Draw(t, "nscopes"); n > 0; n-- {
-		s.Scopes = append(s.Scopes, rapid.SampledFrom([]string{"repository:a:pull", "repository:a:push", "repository:a/b:pull", "repository:x:delete", "registry:catalog:*", "other:thing:act", "repository::pull", "opaque"}).Draw(t, "scope"))
+		s.Scopes = append(s.Scopes, rapid.SampledFrom([]string{"repository:a:pull", "repository:a:push", "repository:a/b:pull", "repository:x:delete", "registry:catalog:*", "other:thing:act", "repository::pull", "opaque",
+			// repositories of the view whose own names look like the prefix
+			"repository:" + s.Prefix + ":pull", "repository:" + s.Prefix + "/x:pull", "repository:" + s.Prefix + "/" + s.Prefix + ":push", "repository:" + s.Prefix + "ey:pull", "other:" + s.Prefix + "/x:pull"}).Draw(t, "scope"))
 	}
 	if s.Method == "Repositories" {
 		p := s.Prefix
@@ -241,7 +243,7 @@ func genRelay(t *rapid.T) RelayScript {
 var propRelay = &vt.Prop[RelayScript]{
 	ID:   "C13",
 	Name: "SubRelay",
-	Rule: "Sub(recorder, prefix) with prefixes of 1-3 elements (incl. routing words); each of the 18 methods; caller repository names from the valid grammar and from hostile generators (empty, '.', '..', '../other', 'x/../../other', leading/trailing/double slashes, upper case, NUL, UTF-8, names equal to or starting with the prefix); 0-3 context scopes (repository pull/push/unknown action, registry:catalog:*, other types, empty repository, opaque); oracle = exactly one underlying call; a well-formed name n arrives as prefix/n; whatever arrives for a malformed name is empty or literally below prefix/ and does not resolve (dot segments) outside it; the context scope at the underlying registry equals the caller's with repository resources prefixed and nothing else changed; Repositories shows exactly the stripped names under prefix/; non-trivial = hostile name, start point, or name sharing the prefix text; distinct = (prefix, method, names, start)",
+	Rule: "Sub(recorder, prefix) with prefixes of 1-3 elements (incl. routing words); each of the 18 methods; caller repository names from the valid grammar and from hostile generators (empty, '.', '..', '../other', 'x/../../other', leading/trailing/double slashes, upper case, NUL, UTF-8, names equal to or starting with the prefix); 0-3 context scopes (repository pull/push/unknown action, registry:catalog:*, other types, empty repository, opaque, repositories whose own name equals or starts with the prefix); oracle = exactly one underlying call; a well-formed name n arrives as prefix/n; whatever arrives for a malformed name is empty or literally below prefix/ and does not resolve (dot segments) outside it; the context scope at the underlying registry equals the caller's with repository resources prefixed and nothing else changed; Repositories shows exactly the stripped names under prefix/; non-trivial = hostile name, start point, or name sharing the prefix text; distinct = (prefix, method, names, start)",
 	Gen:  genRelay,
 	Run:  runRelay,
 }
@@ -359,6 +361,19 @@ func runDiff(s DiffScript, v *vt.V) {
 		view.DeleteTag(ctx, n, "latest")
 		view.PushManifest(ctx, n, "latest", []byte("overwritten"), "application/vnd.verif.opaque")
 	}
+	// listings from any start point, each Seq value iterated twice (a Seq is re-iterable and must
+	// list the same names every time)
+	for _, start := range append([]string{"", "a", "b", "f", "x", "x/y", "zz", p}, u.Repos...) {
+		want, _ := ociregistry.All(memB.Repositories(ctx, start))
+		seq := view.Repositories(ctx, start)
+		for round := 1; round <= 2; round++ {
+			got, err := ociregistry.All(seq)
+			if err != nil || fmt.Sprint(got) != fmt.Sprint(want) {
+				v.Failf("listing", "Sub(mem,%q).Repositories(start %q), iteration %d of the same Seq: %v (err %v), the restricted registry lists %v", p, start, round, got, err, want)
+				return
+			}
+		}
+	}
 	after := snapshotOutside(ctx, memA, outsideNames, dgs)
 	// repositories created below the prefix legitimately appear in the global listing: compare only the outside part
 	if stripInside(before, p) != stripInside(after, p) {
@@ -434,7 +449,7 @@ func genDiff(t *rapid.T) DiffScript {
 var propDiff = &vt.Prop[DiffScript]{
 	ID:   "C13",
 	Name: "SubVsRestrictedRegistry",
-	Rule: "the same generated history (<= 30 ops, all Interface and BlobWriter methods, both tag modes, listings with start points) is applied to Sub(ocimem, prefix) and to a second ocimem that plays the restricted registry; the universe holds 3 valid names plus names that try to leave the prefix ('../other', 'x/../../other', '..', '../<prefix>ey/x') and malformed ones; the underlying registry also holds siblings outside the prefix (other, <prefix>ey/x, <prefix>, <prefix>-tools, zz) with a secret blob, a tagged manifest and copies of the universe's blobs; oracle = every outcome equal on both sides (codes, descriptors, bytes, listings from any start point), no read ever returns the outside content, and everything outside the prefix is unchanged afterwards (also after explicit climbing probes that read, delete and overwrite); distinct = (prefix, names, op-kind sequence)",
+	Rule: "the same generated history (<= 30 ops, all Interface and BlobWriter methods, both tag modes, listings with start points) is applied to Sub(ocimem, prefix) and to a second ocimem that plays the restricted registry; the universe holds 3 valid names plus names that try to leave the prefix ('../other', 'x/../../other', '..', '../<prefix>ey/x') and malformed ones; the underlying registry also holds siblings outside the prefix (other, <prefix>ey/x, <prefix>, <prefix>-tools, zz) with a secret blob, a tagged manifest and copies of the universe's blobs; oracle = every outcome equal on both sides (codes, descriptors, bytes, listings from any start point), no read ever returns the outside content, repository listings from a set of start points (each Seq iterated twice) equal the restricted registry's, and everything outside the prefix is unchanged afterwards (also after explicit climbing probes that read, delete and overwrite); distinct = (prefix, names, op-kind sequence)",
 	Gen:  genDiff,
 	Run:  runDiff,
 }
